@@ -267,6 +267,14 @@ func simErrClass(err error) string {
 		return "nil"
 	}
 	s := err.Error()
+	// file names without their (scratch) directories: the class must not depend on where the world lives
+	fields := strings.Fields(s)
+	for i, f := range fields {
+		if j := strings.LastIndex(f, "/"); j >= 0 && strings.HasPrefix(f, "/") {
+			fields[i] = f[j+1:]
+		}
+	}
+	s = strings.Join(fields, " ")
 	if len(s) > 60 {
 		s = s[:60]
 	}
